@@ -43,6 +43,23 @@ TEarlyRemove == /\ Ev("shared-remove") /\ tpc[E.t] \in {"started", "shared"}
                 /\ texit' = [texit EXCEPT ![E.t] = "error"]
                 /\ tpc' = [tpc EXCEPT ![E.t] = "cleaned"]
                 /\ UNCHANGED <<env, created, kpc, gocache, gkeys, akeys, named, wrotein, linked>> /\ LinkerUnchanged /\ KeepKey
+(* -debugdir: the target is claimed after the shared directory exists; the artifact check decides on -a;  *)
+(* children store artifacts before they run their tool; after a successful go command every artifact of   *)
+(* the command's own keys is written into the target, then the shared directory is removed                 *)
+TDbgClaim == Ev("debugdir-claimed") /\ DebugClaim(E.t)
+TDbgCheck == /\ Ev("debugdir-needs-rebuild") /\ E.t \in DbgTops /\ tpc[E.t] = "shared" /\ dbg[E.t] = "claimed"
+             /\ dbg' = [dbg EXCEPT ![E.t] = "checked"]
+             /\ forcea' = [forcea EXCEPT ![E.t] = E.needs]
+             \* a negative answer on a cache of unknown content teaches that the artifacts exist
+             /\ dkeys' = IF ~E.needs /\ ~ColdGk THEN dkeys \cup {DKey(E.t, w[1], w[2]) : w \in DWanted(E.t)} ELSE dkeys
+             /\ (~E.needs /\ ColdGk => DAllCached(E.t))
+             /\ UNCHANGED restored /\ UNCHANGED pvars /\ LinkerOnlyUnchanged
+TDbgPut == Ev("debugdir-put") /\ DebugPut(K) /\ DKind(K) = E.kind
+TDbgRestore == /\ Ev("debugdir-restore") /\ E.t \in DbgTops /\ tpc[E.t] = "godone" /\ texit[E.t] = "running"
+               /\ (ColdGk => DKey(E.t, E.p, E.kind) \in dkeys)
+               /\ dkeys' = dkeys \cup {DKey(E.t, E.p, E.kind)}
+               /\ restored' = [restored EXCEPT ![E.t] = @ \cup {<<E.p, E.kind>>}]
+               /\ UNCHANGED <<forcea, dbg>> /\ UNCHANGED pvars /\ LinkerOnlyUnchanged
 TRemove == Ev("shared-remove") /\ Cleanup(E.t) /\ E.dir = env[E.t] /\ KeepKey
 
 (* -V=full queries of cmd/go: only while the go command runs, shared dir alive *)
@@ -110,6 +127,7 @@ TKill == Ev("kill") /\ PKill(E.t) /\ KeepKey
 
 Silent == /\ l <= Len(Trace) /\ UNCHANGED l
           /\ \/ \E lp \in Procs : (Patch(lp) \/ StampStart(lp)) /\ PUnch
+             \/ E.ev = "shared-remove" /\ DebugRestoreEnd(E.t)          \* the restore loop ends: not logged
              \/ \E k \in Kids : AsmLoaded(k) /\ named' = named /\ E.ev \in {"tool-run", "write-source"} /\ K = k
 
 TraceNext == \/ TCmdStart \/ TShared \/ TGoStart \/ TGoDone \/ TEarlyRemove \/ TRemove \/ TVersion
@@ -117,6 +135,7 @@ TraceNext == \/ TCmdStart \/ TShared \/ TGoStart \/ TGoDone \/ TEarlyRemove \/ T
              \/ TAsmPut \/ TAsmGet \/ TWrite \/ TToolRun \/ TToolDone \/ TKidFailed
              \/ TLinkStart \/ TLock \/ TCheck \/ TReuse \/ TBuildStart \/ TBuildDone \/ TRename \/ TStamp \/ TLinkRun \/ TLinkDone
              \/ TUnlock \/ TUnlockFailed \/ TKill \/ Silent
+             \/ TDbgClaim \/ TDbgCheck \/ TDbgPut \/ TDbgRestore
 TraceSpec == TraceInit /\ [][TraceNext]_tvars
 
 HighWater == TLCSet(1, IF TLCGet(1) < l THEN l ELSE TLCGet(1))
@@ -125,4 +144,6 @@ TraceAccepted == IF TLCGet(1) = Len(Trace) + 1 THEN TRUE ELSE PrintT(<<"REJECTED
 (* the state reached when the whole trace is consumed *)
 AtEnd == l = Len(Trace) + 1
 EndClean == AtEnd => \A t \in Tops : tpc[t] \in {"idle", "cleaned", "killed"}
+(* the restore wrote artifacts only for packages the command listed (anything else would be another build's tree) *)
+DbgRestoredListed == \A t \in DbgTops : \A w \in restored[t] : w[1] \in PkgSet
 =============================================================================
